@@ -216,7 +216,8 @@ def strategy():
                                         "group_coord": draw(st.integers(0, 1)), "initial": [3, 2, 4]},
                 "members": members, "kills": kills, "faults": faults, "env": env, "run_for": 3.5,
                 "lat": draw(st.lists(st.sampled_from([0.0005, 0.001, 0.004]), min_size=1, max_size=3)),
-                "chunks": [0], "rng_seed": draw(st.integers(0, 2 ** 31))}
+                "chunks": [0], "rng_seed": draw(st.integers(0, 2 ** 31)),
+                "debug_log": draw(st.integers(0, 7)) == 0}
     return cases()
 
 
